@@ -6,7 +6,7 @@ import glob
 checks = {}
 for _p in sorted(glob.glob(os.path.join(V, "harness", "*", "check.json"))):
     _e = json.load(open(_p))
-    if _e.get("ready"):
+    if _e["id"] in json.load(open(os.path.join(V, "ready.json"))):
         checks[_e["id"]] = _e
 props = [json.loads(l)["id"] for l in open(os.path.join(V, "properties.jsonl")) if l.strip()]
 na_reasons = json.load(open(os.path.join(V, "not_applicable.json"))) if os.path.exists(os.path.join(V, "not_applicable.json")) else {}
